@@ -4,17 +4,58 @@ pub use methods::dispatch as sort;
 
 #[dispatch]
 mod methods {
-    use crate::CelValue;
+    use crate::{CelError, CelResult, CelValue};
 
-    fn sort(mut this: Vec<CelValue>) -> Vec<CelValue> {
-        this.sort_by(|a, b| {
-            a.clone()
-                .ord(b.clone())
-                .unwrap_or(Some(std::cmp::Ordering::Less))
-                .unwrap_or(std::cmp::Ordering::Less)
-        });
-        this
+    fn sort(mut this: Vec<CelValue>) -> CelResult<Vec<CelValue>> {
+        // Being ordered against each other is an equivalence between types, so it is
+        // enough to order every element against the first one; a NaN is unordered even
+        // against itself. Anything else is an invalid_op error, never a guess.
+        if let Some(first) = this.first().cloned() {
+            for v in this.iter() {
+                if first.clone().ord(v.clone())?.is_none() {
+                    return Err(CelError::invalid_op("sort: NaN cannot be ordered"));
+                }
+            }
+        }
+        this.sort_by(internal::total_cmp);
+        Ok(this)
     }
 
-    mod internal {}
+    mod internal {
+        use crate::CelValue;
+        use std::cmp::Ordering;
+
+        // `ord` meets an integer and a double at the nearest double, which ties one
+        // double to several integers and is therefore not transitive. Sorting needs a
+        // total order: compare integer and double by exact value. Rounding is monotone,
+        // so a list sorted this way is also ordered under `ord`.
+        pub fn total_cmp(a: &CelValue, b: &CelValue) -> Ordering {
+            match (a, b) {
+                (CelValue::Int(i), CelValue::Float(f)) => int_vs_f64(*i as i128, *f),
+                (CelValue::UInt(u), CelValue::Float(f)) => int_vs_f64(*u as i128, *f),
+                (CelValue::Float(f), CelValue::Int(i)) => int_vs_f64(*i as i128, *f).reverse(),
+                (CelValue::Float(f), CelValue::UInt(u)) => int_vs_f64(*u as i128, *f).reverse(),
+                _ => a
+                    .clone()
+                    .ord(b.clone())
+                    .ok()
+                    .flatten()
+                    .unwrap_or(Ordering::Equal),
+            }
+        }
+
+        fn int_vs_f64(i: i128, f: f64) -> Ordering {
+            if f >= 1.0e30 {
+                return Ordering::Less;
+            }
+            if f <= -1.0e30 {
+                return Ordering::Greater;
+            }
+            let t = f.trunc();
+            match i.cmp(&(t as i128)) {
+                Ordering::Equal => 0.0f64.partial_cmp(&(f - t)).unwrap_or(Ordering::Equal),
+                o => o,
+            }
+        }
+    }
 }
